@@ -75,6 +75,8 @@ def judge(op, impl, model):
             feats = cyshape.features(json.loads(mq.group(1))) if mq else set()
             if "varlen-in-pattern-that-repeats-a-node-variable" in feats:
                 return "reject rows-differ:expansion-in-pattern-that-repeats-a-node-variable " + " ".join(w[2:])[:1500].replace(" ", "_")
+            if "quantifier-in-where-of-optional-match-with-rel-pattern" in feats:
+                return "reject rows-differ:quantifier-in-where-of-optional-match-over-a-relationship-pattern " + " ".join(w[2:])[:1500].replace(" ", "_")
             return "reject unexplained-difference " + " ".join(w[2:])[:1500].replace(" ", "_")
         m = re.search(r" explained=(\S+)", v)
         names = m.group(1).split(",")[0].split("+") if m else ["?"]
@@ -86,6 +88,7 @@ def judge(op, impl, model):
             shape = ("chain-through-node-carried-by-with" if {"with", "pattern-uses-earlier-binding", "rel-pattern"} <= feats
                      else "exact-length-expansion-in-pattern-with-node-bound-by-earlier-clause" if "exact-length-expansion-uses-earlier-binding" in feats
                      else "expansion-in-pattern-that-repeats-a-node-variable" if "varlen-in-pattern-that-repeats-a-node-variable" in feats
+                     else "optional-match-after-relationship-pattern" if "optional-match-after-rel-pattern" in feats
                      else "unrecognised-query-shape")
             return "reject multiplicity-only-difference:%s %s" % (shape, " ".join(w[2:])[:1500].replace(" ", "_"))
         if names[0] == "path-in-reverse-order":
